@@ -196,6 +196,32 @@ CHECKS = {
 
 NOT_YET = {}
 
+# sentences appended to the level text: what the fourth round added to each explored space (DESIGN.md section 18)
+ROUND4 = {
+ "C01": " Also: part P fits, stores (to_json and to_dict), loads and predicts one model per one-field settings profile (33 hourly, 15 daily: every field moved to another accepted value); "
+        "part R holds a dict returned by to_dict() while the object is fitted again (CalTRACK wrapper included in the quick tier); part A predicts int64 and float32 temperatures.",
+ "C02": " Also: models built from a 2.0 / current / billing document are explored over reporting sets in three zones to a fixpoint; the frames part compares the caller's index "
+        "freq / name / attrs as well, with freq-less indexes and every datetime resolution; a reporting set carrying a configured supplemental column the baseline lacked.",
+ "C03": " Also: every model fitted in a history is serialised and used again at the end of its process; CalTRACK hourly fits of fleet meters covering the same instants in two zones, "
+        "one after the other; CalTRACK hourly under 2 (thorough: 4, 16, unset) BLAS threads, alone and after fits of the other families.",
+ "C04": " The predict inputs include the very data object the model was fitted on (model and data snapshotted as one graph); baseline kinds include year-long baselines without a "
+        "season / a weekday, a 60-day baseline and non-float64 temperature columns (323 states, 13 208 edges).",
+ "C05": " Also: the daily class handed an hourly frame (usage and temperature per hour), scattered exact zeros, and a net-metered site whose has_pv flag is a model feature.",
+ "C06": " Daily/billing defects include weather missing on the first / last two days of the frame.",
+ "C07": " Also: finite sentinel temperatures (9999, -9999, 999.9) as day symbols, and the baseline data classes as predict input.",
+ "C08": " Period validity is decided by calendar days in every zone (a 25/35/70-day period across a clock change is valid); calendars include perfectly regular 4-, 5- and 8-weekly "
+        "cycles and reads on the first business day of the month.",
+ "C09": " Also: temperature-only reporting objects (no meter) whose feed starts at any instant, through from_series(None, feed, tzinfo) and a usage-less frame.",
+ "C10": " The span is decided exactly in every zone; the DST family holds spans of 328/329/365/366 days that start in one clock phase and end in the other.",
+ "C11": " Also: fitted ranges whose segment limits coincide with the observed extremes, a negative base load, two-slope documents with reversed balance points, and two-component "
+        "(weekday / weekend) documents evaluated on a calendar whose temperatures are monotone in neither component.",
+ "C12": " Also: histories in which the model object was fitted before on a baseline with another split structure; the stored sub-models must be those of the split chosen last.",
+ "C14": " Option lists naming a season / day type the models do not know must be rejected.",
+ "C16": " Also: whole-number series handed over as float32, signed and unsigned integer columns (7 dtypes), with a negative-savings reporting frame.",
+ "C17": " Supplied irradiance values of either sign.",
+ "C20": " Inputs include integer, nullable-integer and float32 readings.",
+}
+
 def main():
     props = [json.loads(l) for l in open(os.path.join(HERE, "properties.jsonl"))]
     checks = []
@@ -211,7 +237,7 @@ def main():
                 "evidence_file": f"/verif/evidence/{pid}.json",
                 "replay_cmd_template": f"cd /verif && {PY} -m mc.run {pid} --replay {{path}}",
                 "engine": "mc",
-                "level_claimed": {"category": cat, "text": text, "design_ref": ref},
+                "level_claimed": {"category": cat, "text": text + ROUND4.get(pid, ""), "design_ref": ref + ("; section 18" if pid in ROUND4 else "")},
                 "level_note": note,
                 "technique": tech,
             })
